@@ -254,6 +254,10 @@ class FieldData:
             # (the default datatype of a refused value is not kept)
             self._datatype.pop(fieldname, None)
           raise
+      elif fieldname not in self.positional_fieldnames:
+        # (e.g. the accessor of a tag which was deleted: the datatype
+        #  of the new value is recorded, as it is for a new tag)
+        self._field_or_default_datatype(fieldname, value)
       self._data[fieldname] = value
     if renaming_connected:
       self._gfa._register_line(self)
